@@ -133,9 +133,9 @@ impl Value for ValD {
                     FlagD::NoMetric => NoMetricCtor::construct(),
                 };
                 // iterators are handed over in both shapes a caller may use: with an exact size
-                // hint (odd numbers of observations / even numbers of dimensions) and with only an
+                // hint (odd numbers of observations / odd numbers of dimensions) and with only an
                 // upper bound (a `filter`), as a value that skips optional dimensions would
-                let exact_dims = dims.len() % 2 == 0;
+                let exact_dims = dims.len() % 2 == 1;
                 let exact_obs = obs.len() % 2 == 1;
                 let d_exact = dims.iter().map(|(k, v)| (k.as_str(), v.as_str()));
                 let d_loose = dims.iter().map(|(k, v)| (k.as_str(), v.as_str())).filter(|_| true);
